@@ -87,7 +87,7 @@ var ruleModeGuard = &Rule{
 		out := newOut("R-MODEGUARD")
 		targets := p.accessorTargets()
 		out.Counts["accessor_targets"] = len(targets)
-		out.Floors["accessor_targets"] = 5
+		out.Floors["accessor_targets"] = 2
 		ignore := p.ignoreField()
 		if ignore == nil {
 			out.undecided("structural-error flag", "-", "", "anchor unresolved")
@@ -251,7 +251,7 @@ var ruleModeGuard = &Rule{
 			}
 		}
 		out.Counts["guarded_structural_errors"] = nguard
-		out.Floors["guarded_structural_errors"] = 5
+		out.Floors["guarded_structural_errors"] = 2
 		return out
 	},
 }
